@@ -32,7 +32,7 @@ def main():
             print(json.dumps({"error": "does not build", "out": r.stdout[-800:]})); return 2
         for pid in pids:
             t = time.time()
-            r = sh(["./check", pid, tier], cwd="/verif", env=dict(os.environ, VERIF_REPO=wt, VERIF_BUILD=vb, VERIF_SEED=seed))
+            r = sh(["./check", pid, tier], cwd=os.path.dirname(os.path.dirname(os.path.abspath(__file__))), env=dict(os.environ, VERIF_REPO=wt, VERIF_BUILD=vb, VERIF_SEED=seed))
             out = r.stdout
             sigs = sorted(set(re.findall(r"violation sig=(\S+?):? ", out)) | set(re.findall(r"violation sig=(\S+):", out)))
             broken = re.findall(r"\[check\] broken (\w+): (.{0,200})", out)
